@@ -49,7 +49,7 @@ fn guarded(v: &mut Vec<Line>, id: String, f: impl FnOnce(&mut Vec<Line>)) {
 pub fn generate(seed: u64, tier: Tier) -> Vec<Line> {
     let mut vv: Vec<Line> = vec![];
     let maxlen = tier.pick(800usize, 1100);
-    let fills = tier.pick(2usize, 32);
+    let fills = tier.pick(2usize, 64);
     // --- BLAKE2b one-shot + incremental, SHA-512, HMAC
     for len in 0..=maxlen {
         for fi in 0..fills {
@@ -111,7 +111,7 @@ pub fn generate(seed: u64, tier: Tier) -> Vec<Line> {
         }
     }
     // --- Curve25519 / Ed25519 / box family
-    let n = tier.pick(1000usize, 20_000);
+    let n = tier.pick(1000usize, 80_000);
     for i in 0..n {
         guarded(&mut vv, format!("curve-family/{i}"), |v| {
         let mut f = Fill::new(seed, &format!("C18:ec:{i}"));
@@ -152,7 +152,7 @@ pub fn generate(seed: u64, tier: Tier) -> Vec<Line> {
         });
     }
     // --- Argon2 grid (small memory)
-    let pn = tier.pick(120usize, 5000);
+    let pn = tier.pick(120usize, 12_000);
     for i in 0..pn {
         guarded(&mut vv, format!("pwhash/{i}"), |v| {
         let mut f = Fill::new(seed, &format!("C18:pw:{i}"));
@@ -177,7 +177,7 @@ pub fn generate(seed: u64, tier: Tier) -> Vec<Line> {
 /// container axis available in every build: stack array, plain array, Vec and `*_to_vec` wrappers
 fn containers_stable(seed: u64, tier: Tier, vv: &mut Vec<Line>) {
     use dryoc::generichash::GenericHash;
-    let n = tier.pick(300usize, 2000);
+    let n = tier.pick(300usize, 8000);
     for i in 0..n {
         guarded(vv, format!("container/stable-wrappers/{i}"), |v| {
         let mut f = Fill::new(seed, &format!("C18:cs:{i}"));
@@ -248,7 +248,7 @@ fn containers_stable(seed: u64, tier: Tier, vv: &mut Vec<Line>) {
 fn containers(seed: u64, tier: Tier, vv: &mut Vec<Line>) {
     use dryoc::generichash::GenericHash;
     use dryoc::protected::*;
-    let n = tier.pick(200usize, 1500);
+    let n = tier.pick(200usize, 6000);
     for i in 0..n {
         guarded(vv, format!("container/heap-locked/{i}"), |v| {
         let mut f = Fill::new(seed, &format!("C18:cont:{i}"));
